@@ -102,6 +102,10 @@ pub fn run(p: &Program, record: bool) -> RunResult {
             Op::DropLoop => {
                 do_drop_loop(&sim, &mut lp);
             }
+            Op::Run { timeout, iters } => {
+                stats.dispatches += *iters as u64;
+                do_run(&sim, &mut lp, *timeout, *iters);
+            }
             _ => crate::ops::exec_op(&sim, op, false),
         }
         if sim.is_dead() {
@@ -208,9 +212,8 @@ fn do_drop_loop(sim: &Rc<Sim>, lp: &mut Option<EventLoop<'static, Tag>>) {
 // dispatch
 // ------------------------------------------------------------------------------------------
 
-fn do_dispatch(sim: &Rc<Sim>, lp: &mut Option<EventLoop<'static, Tag>>, t: Timeout) {
-    let Some(l) = lp.as_mut() else { return };
-    let t_start = sim.now_ns();
+/// per-dispatch state reset (hook side and model side)
+fn pre_dispatch(sim: &Sim) {
     {
         let mut hk = sim.hk.borrow_mut();
         hk.dispatch_no += 1;
@@ -220,21 +223,25 @@ fn do_dispatch(sim: &Rc<Sim>, lp: &mut Option<EventLoop<'static, Tag>>, t: Timeo
         hk.batch.clear();
         hk.batch_n_fd = 0;
     }
-    {
-        let mut st = sim.st.borrow_mut();
-        st.must.clear();
-        st.idle_phase = false;
-        st.idle_expected.clear();
-        st.timer_fire_deadlines.clear();
-        st.dispatch_error_seen = false;
-        for s in st.srcs.values_mut() {
-            s.cb_this_dispatch = 0;
-            s.pe_this_dispatch = 0;
-            s.excused = false;
-        }
-        crate::life::dispatch_start(&mut st);
-        crate::composite::dispatch_start(&mut st);
+    let mut st = sim.st.borrow_mut();
+    st.must.clear();
+    st.idle_phase = false;
+    st.idle_expected.clear();
+    st.timer_fire_deadlines.clear();
+    st.dispatch_error_seen = false;
+    for s in st.srcs.values_mut() {
+        s.cb_this_dispatch = 0;
+        s.pe_this_dispatch = 0;
+        s.excused = false;
     }
+    crate::life::dispatch_start(&mut st);
+    crate::composite::dispatch_start(&mut st);
+}
+
+fn do_dispatch(sim: &Rc<Sim>, lp: &mut Option<EventLoop<'static, Tag>>, t: Timeout) {
+    let Some(l) = lp.as_mut() else { return };
+    let t_start = sim.now_ns();
+    pre_dispatch(sim);
     let mut tag = Tag(sim.tag);
     let r = catch_unwind(AssertUnwindSafe(|| l.dispatch(timeout_of(t), &mut tag)));
     sim.hk.borrow_mut().in_dispatch = false;
@@ -249,6 +256,51 @@ fn do_dispatch(sim: &Rc<Sim>, lp: &mut Option<EventLoop<'static, Tag>>, t: Timeo
         Ok(res) => {
             sim.trace(|| format!("  dispatch -> {} t={}..{}", if res.is_ok() { "Ok".to_string() } else { format!("Err({})", res.as_ref().unwrap_err()) }, t_start, t_end));
             after_dispatch(sim, t, res.is_ok(), res.err().map(|e| e.to_string()), t_start, t_end);
+        }
+    }
+}
+
+/// EventLoop::run: every iteration is checked like a dispatch of its own (from the
+/// per-iteration closure); the closure requests the stop after `iters` iterations.
+fn do_run(sim: &Rc<Sim>, lp: &mut Option<EventLoop<'static, Tag>>, t: Timeout, iters: u32) {
+    let Some(l) = lp.as_mut() else { return };
+    let Some(signal) = sim.st.borrow().signal.clone() else { return };
+    let iters = iters.clamp(1, 6);
+    let t_start = std::cell::Cell::new(sim.now_ns());
+    let count = std::cell::Cell::new(0u32);
+    pre_dispatch(sim);
+    let mut tag = Tag(sim.tag);
+    let sim2 = sim.clone();
+    let r = catch_unwind(AssertUnwindSafe(|| {
+        l.run(timeout_of(t), &mut tag, |_| {
+            sim2.hk.borrow_mut().in_dispatch = false;
+            let now = sim2.now_ns();
+            sim2.trace(|| format!("  run iteration {} done t={}..{}", count.get(), t_start.get(), now));
+            after_dispatch(&sim2, t, true, None, t_start.get(), now);
+            count.set(count.get() + 1);
+            if count.get() >= iters || sim2.is_dead() {
+                signal.stop();
+            } else {
+                t_start.set(now);
+                pre_dispatch(&sim2);
+            }
+        })
+    }));
+    sim.hk.borrow_mut().in_dispatch = false;
+    match r {
+        Err(p) => {
+            sim.violate("dispatch.panic", vec!["run".into()], format!("run() panicked: {}", panic_msg(&p)));
+        }
+        Ok(Ok(())) => {
+            if count.get() != iters && !sim.is_dead() {
+                sim.violate("run.iterations", vec![], format!("run() returned Ok after {} iterations although stop() was requested in iteration {}", count.get(), iters));
+            } else {
+                sim.rule_ok(&["C11"], 111);
+            }
+        }
+        Ok(Err(e)) => {
+            sim.trace(|| format!("  run -> Err({})", e));
+            after_dispatch(sim, t, false, Some(e.to_string()), t_start.get(), sim.now_ns());
         }
     }
 }
